@@ -1,6 +1,7 @@
 import BppModel.Proto
 import BppModel.PNorm
 import BppModel.DistGuards
+import BppModel.DistKernels
 /-
 Driver for C08 (RandomTools cumulative / quantile functions).
 
@@ -199,6 +200,127 @@ def exploreStep (op : List String) (impl : Option (List String)) : Option (Strin
     | _, _ => some ("bad-op", "-")
   | _ => none
 
+
+/-! ### transcribed kernels (`k.*`): compared bit for bit; `refl.*`: exact reflections -/
+abbrev KR := DistKernels.R Float
+
+/-- fuel for the loops the C++ does not bound itself (far more than any call in the property's
+ranges needs: running out shows as the model answer `hang`, a correspondence mismatch) -/
+def kFuel : Nat := 20000000
+
+def kOut? (s : String) : Option KR :=
+  if s == "exc:bpp" then some .exc else if s == "hang" then some .hang else (float? s).map .val
+
+/-- the implementation's answer to a `k.*` op: outcome (value / exception) and `lg` groups -/
+def parseAnswerK (t : List String) : Option (KR × List Entry) :=
+  match splitTok ";" t with
+  | [o] :: gs =>
+    match kOut? o, gs.mapM parseEntry with
+    | some o, some es => some (o, es)
+    | _, _ => none
+  | _ => none
+
+def kShow : KR → String
+  | .val v => if same v missV then "oracle-miss" else hx v
+  | .exc => "exc:bpp"
+  | .hang => "hang"
+
+def kSame : KR → KR → Bool
+  | .val a, .val b => same a b
+  | .exc, .exc => true
+  | .hang, .hang => true
+  | _, _ => false
+
+def kIsExc : KR → Bool | .exc => true | _ => false
+def kValIs (o : KR) (v : Float) : Bool := match o with | .val w => same w v || (w == v) | _ => false
+
+def kIg (x a g : Float) : KR := DistKernels.incompleteGamma kFuel x a g
+def kLg (es : List Entry) : Float → Float := fun a => lookupV es "lg" [a]
+def kIb (es : List Entry) (x a b : Float) : KR :=
+  DistKernels.incompleteBeta (DistKernels.betaSub kFuel (kLg es)) x a b
+
+/-- the model's answer followed by the echoed kernel-value groups -/
+def kModel (o : KR) (rest : List String) : String :=
+  if rest.isEmpty then kShow o else kShow o ++ " " ++ " ".intercalate rest
+
+def kernelStep (op : List String) (impl : Option (List String)) : Option (String × String) :=
+  let ans := impl.bind parseAnswerK
+  let es : List Entry := match ans with | some (_, es) => es | none => []
+  let io : Option KR := ans.map (·.1)
+  let rest := restOf impl
+  let judge (f : KR → List (String × Bool)) : String :=
+    match impl, io with
+    | none, _ => "-"
+    | some _, none => "FAIL:parse"
+    | some _, some o => firstFail (f o)
+  match op with
+  | ["k.ig", a, b, c] =>
+    match f3? a b c with
+    | some (x, al, g) =>
+      some (kModel (kIg x al g) rest, judge fun o =>
+        [("ig_guards", !kIsExc o),
+         ("ig_guards", !(igSentinel x al) || kValIs o (-1)),
+         ("ig_guards", igSentinel x al || !(x == 0) || kValIs o 0),
+         ("ig_far_tail_one", igSentinel x al || x == 0 ||
+            !(DistKernels.igUseCF x al && DistKernels.igFactor x al g == 0) || kValIs o 1)])
+    | none => some ("bad-op", "-")
+  | ["k.qchisq", a, b] =>
+    match float? a, float? b with
+    | some p, some v =>
+      some (kModel (DistKernels.qChisq kFuel (kLg es) kIg p v) rest, judge fun o =>
+        [("qChisq_guard", !kIsExc o),
+         ("qChisq_guard", !(DistKernels.qcGuard p v) || kValIs o (-1))])
+    | _, _ => some ("bad-op", "-")
+  | ["k.ibeta", a, b, c] =>
+    match f3? a b c with
+    | some (x, al, be) =>
+      some (kModel (kIb es x al be) rest, judge fun o =>
+        [("ib_exc_iff", kIsExc o == ibRaises x al be),
+         ("ib_ends", ibRaises x al be || !(x == 0) || kValIs o 0),
+         ("ib_ends", ibRaises x al be || !(x == 1) || kValIs o 1),
+         ("ib_swapped_le", !(DistKernels.ibSwapped x al be) ||
+            (match o with | .val v => v ≤ 1 - (DistKernels.tiny : Float) | .hang => true | .exc => false))])
+    | none => some ("bad-op", "-")
+  | ["k.qbeta", a, b, c] =>
+    match f3? a b c with
+    | some (p, al, be) =>
+      some (kModel (DistKernels.qBeta (kLg es) (kIb es) p al be) rest, judge fun o =>
+        [("qBeta_raises_iff", !(qBetaRaises p al be) || kIsExc o),
+         ("qBeta_ends", qBetaRaises p al be || !(p == 0 || p == 1) || kValIs o p),
+         ("qBeta_raises_iff", qBetaRaises p al be || !(al > 0 && be > 0) || !kIsExc o)])
+    | none => some ("bad-op", "-")
+  | ["refl.ibeta", a, b, c] =>
+    match f3? a b c with
+    | some (x, al, be) =>
+      let v : String := match impl with
+        | none => "-"
+        | some [r1, r2] =>
+          (match kOut? r1, kOut? r2 with
+           | some o1, some o2 =>
+             (match DistKernels.ibReflExpected x al be o2 with
+              | some e => if kSame o1 e then "ok" else "FAIL:ib_reflect_swapped"
+              | none => "ok")
+           | _, _ => "FAIL:parse")
+        | some _ => "FAIL:parse"
+      some (echo impl, v)
+    | none => some ("bad-op", "-")
+  | ["refl.qbeta", a, b, c] =>
+    match f3? a b c with
+    | some (p, _, _) =>
+      let v : String := match impl with
+        | none => "-"
+        | some [r1, r2] =>
+          (match kOut? r1, kOut? r2 with
+           | some o1, some o2 =>
+             (match DistKernels.qbReflExpected p o2 with
+              | some e => if kSame o1 e then "ok" else "FAIL:qBeta_reflect"
+              | none => "ok")
+           | _, _ => "FAIL:parse")
+        | some _ => "FAIL:parse"
+      some (echo impl, v)
+    | none => some ("bad-op", "-")
+  | _ => none
+
 def step (s : St) (op : List String) (impl : Option (List String)) : St × String × String :=
   let ans := impl.bind parseAnswer
   let es : List Entry := match ans with | some (_, es) => es | none => []
@@ -216,6 +338,9 @@ def step (s : St) (op : List String) (impl : Option (List String)) : St × Strin
   -- a call that did not return is a failure of its own (every function here must terminate)
   if (match impl with | some t => t.contains "hang" | none => false) then (s, echo impl, "FAIL:terminates") else
   match exploreStep op impl with
+  | some (m, v) => (s, m, v)
+  | none =>
+  match kernelStep op impl with
   | some (m, v) => (s, m, v)
   | none =>
   match op with
